@@ -336,6 +336,9 @@ func Harness_C04_caughtup() {
 // endpoint, and returns one whenever such a node exists.
 func Harness_C04_lookup() {
 	N := v.Param("N", 2)
+	if v.Choose("maporder", 2) == 1 {
+		v.Tag("maporder-reverse") // Go randomises map iteration: explore both orders
+	}
 	cs := cluster.NewState(&cluster.Node{ID: "local", ProxyAddr: "p", AdminAddr: "a", Endpoints: map[string]int{"e": v.Int("local.count", 0, 1<<20)}}, log.NewNopLogger())
 	exists := false
 	type rec struct {
